@@ -236,6 +236,18 @@ Additions for scoring/gaussian_dbal.py (generate_combination_at_sorted_index, th
                       Z.div / Z.modulo (floor division / modulo with the sign of the divisor = Python's).  Without the key
                       `//` and `%` stay the total Z.div / Z.modulo (which return 0 for b = 0): a configuration whose divisor
                       can be 0 on a reachable input must set it.  Default monad only.
+Additions for distance_calculation.py (get_lower_triangular_indices_chunk, ChunkedDistanceMatrix; C07):
+  `assert e`          (only with cfg["assert_error"] = tag, default monad): `if e then <rest of the block> else Err tag`
+                      (AssertionError; the message, if any, must be a constant).  The translation describes a run WITHOUT
+                      `python -O` (which removes asserts).  Without the key an assert is refused.
+  cfg["zero_division"] tag: `a // b` and `a % b` on ints are CHECKED (PyRt.z_floordiv / z_mod: ZeroDivisionError = Err tag
+                      when b = 0, else Coq's floor division / modulo, which agree with Python's for every sign).  Without
+                      the key they stay the unchecked `/` and `mod` (only right where the divisor cannot be 0).
+  `if c`, c : opt Z   truthiness of an optional int (`if chunk_size:`): false for None and for 0 (PyRt.opt_int_truthy)
+  `x.attr[i] = v`     attr a declared field (cfg["fields"]) of list type, x a bound variable of the owner type, with
+                      cfg["index_error"] = tag: `a <- list_set tag (getter x) i v; x := setter x a` (numpy / list item store:
+                      a negative index wraps once, IndexError outside); the object variable is rebound as for `x.attr = e`
+  `x.attr += e`       attr a declared field of type Z: `x.attr = x.attr + e`
 """
 import ast
 
@@ -571,6 +583,10 @@ class Tr:
                 n = self.new("r")
                 hoist.append((n, "%s (%d) %s %s" % ("checked_div" if isinstance(e.op, ast.FloorDiv) else "checked_mod",
                                                     self.cfg["checked_div"], l, r)))
+            if type(e.op) in (ast.FloorDiv, ast.Mod) and self.cfg.get("zero_division") is not None and self.M["type"] == "result":
+                # cfg["zero_division"]: a checked division (ZeroDivisionError = Err tag when the divisor is 0)
+                n = self.new("r")
+                hoist.append((n, "%s (%d) %s %s" % ("z_floordiv" if isinstance(e.op, ast.FloorDiv) else "z_mod", self.cfg["zero_division"], l, r)))
                 return n, ("Z",)
             return "(%s %s %s)" % (l, ops[type(e.op)], r), ("Z",)
         if isinstance(e, ast.UnaryOp) and isinstance(e.op, ast.USub):
@@ -726,6 +742,8 @@ class Tr:
             # an optional OBJECT (opaque type): truthy iff not None.  Optional ints / bools / containers are refused:
             # 0, False and empty containers are falsy too, `is_some` would be wrong for them
             return "(is_some %s)" % v
+        if t == ("opt", ("Z",)):     # truth value of an Optional[int]: None and 0 are false (`if chunk_size:`)
+            return "(opt_int_truthy %s)" % v
         if t == ("Z",):     # truth value of an int: it is not zero (`if not len(d)`, `if not n`)
             return "(negb (%s =? 0))" % v
         if t == ("Z",) and self.cfg.get("int_truthiness"):
@@ -821,6 +839,9 @@ class Tr:
                     if self.field_target(t) is not None:      # x.attr = e rebinds x
                         add(self.field_target(t))
                         continue
+                    if isinstance(t, ast.Subscript) and self.field_target(t.value) is not None:      # x.attr[i] = v rebinds x
+                        add(self.field_target(t.value))
+                        continue
                     for n in ([t] if isinstance(t, ast.Name) else t.elts if isinstance(t, ast.Tuple) else []):
                         if isinstance(n, ast.Name):
                             add(n.id)
@@ -845,6 +866,8 @@ class Tr:
                     add(st.target.id)
                 elif isinstance(st.target, ast.Subscript) and isinstance(st.target.value, ast.Name):
                     add(st.target.value.id)
+                elif self.field_target(st.target) is not None:      # x.attr += e rebinds x
+                    add(self.field_target(st.target))
                 else:
                     raise Unsupported("augmented target: " + ast.unparse(st))
             elif isinstance(st, ast.Expr):
@@ -870,6 +893,8 @@ class Tr:
                 if st.orelse:
                     raise Unsupported("for/else")
             elif isinstance(st, (ast.Continue, ast.Raise, ast.Return, ast.Break)):
+                pass
+            elif isinstance(st, ast.Assert):
                 pass
             elif isinstance(st, ast.While):
                 for n in self.assigned(st.body):
@@ -1067,6 +1092,8 @@ class Tr:
                     txt = "%slet %s : %s := %s in\n%slet %s := %s in\n" % (
                         ind, tgt.id, coq_type(vty), val_t.format(**args), ind, var, st_t.format(**args))
                     return self.bind_hoist(hoist, txt, ind) + self.block(rest, env2, k, ind)
+            if isinstance(tgt, ast.Subscript) and self.field_target(tgt.value) is not None:
+                return self.field_item_store(tgt, st.value, env, hoist, rest, k, ind)
             if self.field_target(tgt) is not None:
                 return self.field_store(tgt.value.id, tgt.attr, st.value, False, env, hoist, rest, k, ind)
             if isinstance(tgt, ast.Name):
@@ -1116,6 +1143,10 @@ class Tr:
                     raise Unsupported("augmented assignment to an unbound variable: " + n)
                 v, _ = self.expr(ast.BinOp(left=ast.Name(id=n, ctx=ast.Load()), op=st.op, right=st.value), env, hoist)
                 return self.bind_hoist(hoist, "%slet %s := %s in\n" % (ind, n, v), ind) + self.block(rest, env, k, ind)
+            if self.field_target(st.target) is not None:      # x.attr += e  is  x.attr = x.attr + e
+                load = ast.Attribute(value=ast.Name(id=st.target.value.id, ctx=ast.Load()), attr=st.target.attr, ctx=ast.Load())
+                return self.field_store(st.target.value.id, st.target.attr, ast.BinOp(left=load, op=st.op, right=st.value),
+                                        False, env, hoist, rest, k, ind)
             d = st.target.value.id
             if env.get(d) != ("dict",) or not isinstance(st.op, ast.Add):
                 raise Unsupported("augmented subscript: " + ast.unparse(st))
@@ -1153,6 +1184,14 @@ class Tr:
             else:
                 raise Unsupported("method call: " + ast.unparse(st))
             return self.bind_hoist(hoist, "%slet %s := %s in\n" % (ind, n, term), ind) + self.block(rest, env, k, ind)
+        if isinstance(st, ast.Assert):
+            # cfg["assert_error"]: `assert e` is `if e then <rest> else Err tag` (AssertionError)
+            tag = self.cfg.get("assert_error")
+            if tag is None or self.M["type"] != "result" or (st.msg is not None and not isinstance(st.msg, ast.Constant)):
+                raise Unsupported("assert (without a declared assert_error tag, or with a computed message): " + ast.unparse(st)[:80])
+            c = self.cond(st.test, env, hoist)
+            tb = self.block(rest, env, k, ind + "  ")
+            return self.bind_hoist(hoist, "%sif %s then\n%s%selse\n%s  Err (%d)\n" % (ind, c, tb, ind, ind, tag), ind)
         if isinstance(st, ast.Raise):
             return "%s%s\n" % (ind, self.raise_term(st, env))
         if isinstance(st, ast.Continue):
@@ -1393,6 +1432,23 @@ class Tr:
         else:
             v = self.need(v, vt, fty, hoist)
         txt = "%slet %s : %s := %s in\n" % (ind, x, coq_type(owner), setter.format(obj=x, val=v))
+        return self.bind_hoist(hoist, txt, ind) + self.block(rest, env, k, ind)
+
+    def field_item_store(self, tgt, value, env, hoist, rest, k, ind):
+        """x.attr[i] = v with attr a declared list field: PyRt.list_set on the field's value (IndexError = Err cfg["index_error"]),
+        the variable x is rebound to the updated object"""
+        x, attr = tgt.value.value.id, tgt.value.attr
+        owner, fty, getter, setter = self.fields[attr]
+        tag = self.cfg.get("index_error")
+        if env.get(x) != owner or fty[0] != "list" or tag is None or self.M["type"] != "result" \
+                or isinstance(tgt.slice, (ast.Slice, ast.Tuple)):
+            raise Unsupported("item store to attribute %s of %s: %s" % (attr, x, ast.unparse(tgt)))
+        ii, it = self.expr(tgt.slice, env, hoist)
+        vv, vt = self.expr(value, env, hoist)
+        a = self.new("a")
+        txt = "%sdor %s <- list_set (%d) (%s) %s %s;\n%slet %s : %s := %s in\n" % (
+            ind, a, tag, getter.format(obj=x), self.need(ii, it, ("Z",), hoist), self.need(vv, vt, fty[1], hoist),
+            ind, x, coq_type(owner), setter.format(obj=x, val=a))
         return self.bind_hoist(hoist, txt, ind) + self.block(rest, env, k, ind)
 
     # ---- defaultdict(list) buckets (cfg["defaultdict_list"])
